@@ -66,10 +66,10 @@ class EffSyn:
         self.n = 0
         return self._run(body, start, tuple(stops), param_terms, depth)
 
-    def _run(self, body, start, stops, param_terms, depth):
+    def _run(self, body, start, stops, param_terms, depth, guards=None):
         done = []
         pt = PathTerms(self.F, body, param_terms=param_terms)
-        self._walk(body, pt, start, stops, Alt(), done, depth, frozenset(), first=True)
+        self._walk(body, pt, start, stops, Alt(guards=guards), done, depth, frozenset(), first=True)
         return done
 
     # ---- helpers
@@ -191,16 +191,30 @@ class EffSyn:
                     continue
                 ety, names = self._discr_info(body, bb, t)
                 explicit = {x for _, x in t["targets"]}
+                # a second branch on a condition already decided on this path (same term) is not a new choice
+                prior = [g for g in alt.guards if g[0] == cond]
+                if prior:
+                    fixed = [g[1] for g in prior if g[1] != "otherwise" and isinstance(g[1], str)]
+                    excl = set().union(*[set(g[4]) for g in prior if g[1] == "otherwise" and len(g) > 4]) if any(g[1] == "otherwise" for g in prior) else set()
+                    if fixed:
+                        tgt = [x for val, x in t["targets"] if val == fixed[0]]
+                        bb = tgt[0] if tgt else t["otherwise"]
+                        continue
+                    succs = [s_ for s_ in succs if not ({val for val, x in t["targets"] if x == s_} and
+                                                        {val for val, x in t["targets"] if x == s_} <= excl)] or succs
+                    if len(succs) == 1:
+                        bb = succs[0]
+                        continue
                 for s_ in succs:
                     vals = [val for val, x in t["targets"] if x == s_]
                     a = alt.fork()
                     if vals:
                         for val in vals[:1] if len(vals) == 1 else [tuple(vals)]:
                             vn = names.get(val) if isinstance(val, str) else tuple(names.get(x_) for x_ in val)
-                            a.guards.append((cond, val, ety, vn))
+                            a.guards.append((cond, val, ety, vn, ()))
                     else:
                         rest = sorted(set(names) - {val for val, _ in t["targets"]})
-                        a.guards.append((cond, "otherwise", ety, tuple(names[r] for r in rest) if names else None))
+                        a.guards.append((cond, "otherwise", ety, tuple(names[r] for r in rest) if names else None, tuple(val for val, _ in t["targets"])))
                     self._walk(body, PathTerms(self.F, body, pt.param_terms, a.over, pt.base), s_, stops, a, done, depth, seen)
                 return
             alt.exit = "diverges"
@@ -276,14 +290,14 @@ class EffSyn:
         hb = self.F.bodies.get(cal)
         if hb is not None and hb.kind in ("fn", "method") and depth < self.max_depth and self.helper_ok(hb) and len(hb.blocks) <= 400:
             try:
-                subs = self._run(hb, 0, (), args, depth + 1)
+                subs = self._run(hb, 0, (), args, depth + 1, guards=alt.guards)   # decisions already taken stay taken
             except RecursionError:
                 subs = None
             if subs:
                 outs = []
                 for sa in subs:
                     a = alt.fork() if len(subs) > 1 else alt
-                    a.guards += sa.guards
+                    a.guards = list(sa.guards)
                     a.pushes += sa.pushes
                     a.counts += sa.counts
                     a.notes += sa.notes
